@@ -395,6 +395,7 @@ def templates():
         defs = []
         if sub_c:
             defs.append(assign(ids, var("RSP"), B("IntSub", V("RSP"), C(sub_c))))
+            defs.append(assign(ids, var("RCX"), C(2)))  # keeps the two SP assignments from being merged into one expression
         m = B("IntAnd", C(mask_c), V("RSP")) if extra == "commuted" else B("IntAnd", V("RSP"), C(mask_c))
         defs.append(assign(ids, var("RSP"), m))
         defs.append(store(ids, V("RSP"), V("RAX")))
@@ -413,6 +414,14 @@ def templates():
                   blk("blk_x", [assign(ids, var("RDX"), C(1))], [jmp(ids, "return", target=V("RSI"))]),
                   blk("blk_y", [assign(ids, var("RDX"), C(2))], [jmp(ids, "return", target=V("RSI"))])]
         progs.append(("join_chain", project(blocks, [callee_sub(ids)])))
+    # stack pointer: two alignment masks in one block (the offset journal must account for the first substitution)
+    for c1, c2, m1, m2 in [(8, 8, 0xFFFFFFFFFFFFFFF0, 0xFFFFFFFFFFFFFFF0), (8, 0, 0xFFFFFFFFFFFFFFF0, 0xFFFFFFFFFFFFFFF0), (0x18, 4, 0xFFFFFFFFFFFFFFF0, 0xFFFFFFFFFFFFFFF8), (4, 8, 0xFFFFFFFFFFFFFFF8, 0xFFFFFFFFFFFFFFF0)]:
+        ids = Ids()
+        defs = [assign(ids, var("RSP"), B("IntSub", V("RSP"), C(c1))), assign(ids, var("RCX"), C(2)), assign(ids, var("RSP"), B("IntAnd", V("RSP"), C(m1))), store(ids, V("RSP"), V("RAX"))]
+        if c2:
+            defs.append(assign(ids, var("RSP"), B("IntSub", V("RSP"), C(c2))))
+        defs += [assign(ids, var("RBX"), C(1)), assign(ids, var("RSP"), B("IntAnd", V("RSP"), C(m2))), store(ids, V("RSP"), V("RDI"))]
+        progs.append(("sp_double_mask", project([blk("blk_0", defs, [jmp(ids, "return", target=V("RSI"))])], [callee_sub(ids)])))
     # stack pointer: variable-size allocation before the alignment mask
     for reg, mask_c in itertools.product(["RAX", "RCX"], [0xFFFFFFFFFFFFFFF0, 0xFFFFFFFFFFFFFFF8]):
         ids = Ids()
